@@ -70,6 +70,14 @@ def _set_active_context(heap: EventHeap, clock: Clock) -> None:
     # Set per-partition event counter if the heap owns one
     heap_counter = getattr(heap, "_event_counter", None)
     if heap_counter is not None:
+        # Events scheduled before the run took their sort indices from the global
+        # counter.  Continue numbering above everything already pushed, so that
+        # same-timestamp events are delivered in creation order across the
+        # pre-run / in-run boundary (one index is consumed by the probe).
+        max_seen = getattr(heap, "_max_sort_index", -1)
+        if next(heap_counter) <= max_seen:
+            heap_counter = count(max_seen + 1)
+            heap._event_counter = heap_counter
         _active_counter_var.set(heap_counter)
 
 
